@@ -342,8 +342,14 @@ def oracle(c):
                 out.append(("no-panic-no-runaway", {"impl": c.impl}))
                 return out
         if k == "elems":
-            es = c.meta["es"]
+            # inputs are taken from the op lines (the generic shrinker edits lines, not meta);
+            # a case whose lines do not belong together is not a case
+            t = c.lines[0].split("\t")[1]
+            es = [] if t == "-" else [parse_elem(x) for x in t.split(",")]
             ref = ref_encode(es)
+            want_lines = elems_case(es).lines
+            if c.lines != want_lines:
+                return []
             enc = parse_enc(c.impl[0])
             if isinstance(ref, tuple):
                 if enc != ("space", ref[1]):
@@ -368,7 +374,10 @@ def oracle(c):
                 if oks != want or len(items) != len(want):
                     out.append(("encode-iter", {"elements": elems_text(es), "yielded": c.impl[2]}))
         elif k == "raw":
-            b = unhex(c.meta["data"])
+            h = c.lines[0].split("\t")[1]
+            if any(l.split("\t")[1] != h for l in c.lines):
+                return []
+            b = unhex(h)
             oks, tiled = check_drive(b, c.impl[0], out, "iter")
             # re-encoding what was yielded reproduces the tiled prefix (+ END padding)
             m = re.match(r"^n=(\d+),(.*)$", c.impl[1])
@@ -400,11 +409,67 @@ def oracle(c):
     return out
 
 
+_T = "EpModel.Props.C13."
+_HINT = {
+    "tiling": ["iter_tiles", "step_spec"],
+    "error-fields": ["iter_tiles", "step_spec"],
+    "exhaustion": ["iter_exhausted", "iter_tiles"],
+    "bound": ["iter_bound"],
+    "no-panic-no-runaway": ["iter_bound", "iter_exhausted", "encode_total"],
+    "too-big": ["too_big", "raw_too_big"],
+    "reference-encoding": ["encode_len", "encode_iter"],
+    "encode-len": ["encode_len"],
+    "encode-iter": ["encode_iter"],
+    "re-encode": ["iter_tiles", "encode_len"],
+    "raw-padding": ["raw_pad"],
+    "header-door": ["encode_iter", "raw_pad"],
+}
+
+
+def THEOREM_HINT(name):
+    return [_T + x for x in _HINT.get(name, ["iter_tiles", "encode_iter"])]
+
+
+def extra_coverage(cases):
+    """what the generated areas actually reached: outcome of the iterator per error kind and option kind,
+    number of elements yielded before the stop, encoder outcomes per size"""
+    stops = {}
+    depth = {}
+    enc = {"ok": 0, "space": 0}
+    sizes = set()
+    for c in cases:
+        o = c.impl[0]
+        if o is None:
+            continue
+        if c.meta.get("k") == "raw":
+            m = re.search(r"err\((eos|size|unknown)\(id=(\d+)", o)
+            if m:
+                key = "%s(kind=%s)" % (m.group(1), m.group(2) if m.group(1) != "unknown" else "*")
+            else:
+                key = "end-or-exhausted"
+            stops[key] = stops.get(key, 0) + 1
+            n = o.count("@") - (1 if m else 0)
+            depth[n] = depth.get(n, 0) + 1
+        else:
+            if o.startswith("ok("):
+                enc["ok"] += 1
+                mm = re.search(r"len=(\d+)", o)
+                if mm:
+                    sizes.add(int(mm.group(1)))
+            elif o.startswith("err(space="):
+                enc["space"] += 1
+                sizes.add(int(o[10:-1]))
+    return {
+        "iterator_stop_reasons": dict(sorted(stops.items())),
+        "elements_before_stop_histogram": {str(k): v for k, v in sorted(depth.items())},
+        "encoder_outcomes": enc,
+        "encoder_sizes_seen": sorted(sizes),
+    }
+
+
 def is_trivial(c):
-    if c.meta.get("k") == "elems":
-        return not c.meta["es"]
-    d = c.meta.get("data", "-")
-    return d == "-" or d.startswith("00")
+    d = c.lines[0].split("\t")[1]
+    return d == "-" or (c.meta.get("k") == "raw" and d.startswith("00"))
 
 
 # ------------------------------------------------------------------------------------------------
@@ -466,7 +531,7 @@ def elems_case(es):
     lines = ["opt.encode\t" + t, "opt.hdr_elems\t" + t]
     if not isinstance(ref, tuple):
         lines.append("opt.iter\t" + hx(ref))
-    return Case(lines, {"k": "elems", "es": es})
+    return Case(lines, {"k": "elems"})
 
 
 def raw_case(b, doors=True):
@@ -474,7 +539,7 @@ def raw_case(b, doors=True):
     lines = ["opt.iter\t" + h, "opt.reenc\t" + h]
     if doors:
         lines += ["opt.raw\t" + h, "opt.hdr_raw\t" + h]
-    return Case(lines, {"k": "raw", "data": h})
+    return Case(lines, {"k": "raw"})
 
 
 def perturbed_area(rng):
@@ -605,7 +670,7 @@ def search(rng, corr_failures, run_cases):
     for f in corr_failures[:30]:
         c = f.case
         if c.meta.get("k") == "raw":
-            b = unhex(c.meta["data"])
+            b = unhex(c.lines[0].split("\t")[1])
             vs = [b[:i] for i in range(len(b) + 1)]
             for i in range(len(b)):
                 for v in ALPHABET:
@@ -617,7 +682,8 @@ def search(rng, corr_failures, run_cases):
                     seen.add(v)
                     cands.append(raw_case(v))
         elif c.meta.get("k") == "elems":
-            es = c.meta["es"]
+            t = c.lines[0].split("\t")[1]
+            es = [] if t == "-" else [parse_elem(x) for x in t.split(",")]
             for i in range(len(es) + 1):
                 for v in (es[:i], es[i:], es[:i] + [("nop",)] + es[i:], es[:i] + es[i + 1 :]):
                     t = elems_text(v)
